@@ -87,8 +87,7 @@ class RangeV:
         self.start, self.end = start, end
 
 
-def _layout(repo, col):
-    R = "R-C01-layout"
+def _layout(repo, col, R="R-C01-layout"):
     # ---- writer: slot of compartment k of branch b
     wfi = repo.func(SU, "remap_index_to_masked")
     ev = _mk_eval(repo)
